@@ -82,6 +82,13 @@ theorem history_fires_net_registrations {ν : Type} [DecidableEq ν] (ops : List
   refine ⟨h1, by rw [h1]; exact firstOccFrom_nodup _ _, fun h => ?_⟩
   rw [h1]; simp [firstOcc, mem_firstOccFrom]
 
+/-- histories that interleave firings with add / del / clear: every firing calls exactly the first
+    occurrences of the net registrations made before it (so a listener added after an event has already
+    fired runs from the next firing on, and a removed one no longer does) -/
+theorem every_firing_sees_current_registrations {ν : Type} [DecidableEq ν] (ops : List (Op ν)) :
+    Mgr.empty.runHistory ops = specFires [] ops :=
+  runHistory_spec [] ops
+
 /-- the same for a service class: the history starts from the listeners inherited at class creation -/
 theorem history_after_inheritance {ν : Type} [DecidableEq ν] (bases : List (Mgr ν)) (ops : List (Op ν)) (e : ν) :
     ((Mgr.inherit bases).applyAll ops).fire e
@@ -294,6 +301,12 @@ theorem string_event_needed_when_out_string_is_none :
       ⟨true, false, .wsgi, .none, .fault, none, none⟩ = false := by
   decide
 
+/-- an EventManager given to @rpc reaches the method's descriptor under each of the four keywords
+    (`_evmgr`, `_evmgrs`, `_event_manager`, `_event_managers`), so the world's method-level managers are heard -/
+theorem decorator_keywords_reach_descriptor (sp : Spelling) (ms : List (Mgr Event)) :
+    descriptorManagers facts14 sp ms = ms := by
+  cases sp <;> rfl
+
 /-! ### non-vacuity -/
 
 -- a registration history with duplicates, two events
@@ -307,8 +320,10 @@ example : (Mgr.empty.applyAll [Op.add 1 7, .add 1 8, .clear 1, .add 1 8]).fire 1
 example : facts14.leavesNone .httpRpc .void = true := by decide
 example : methodView (run facts14 ⟨.httpRpc, .wsgi, .void⟩ ⟨.none, .fault, false⟩ none none).steps
     = [.ev .created, .ev .call, .user, .ev .returnObject, .ev .returnDocument, .ev .returnString, .ev .closed] := by decide
+-- A registered, E fired, B registered, E fired again, A removed, E fired
+example : Mgr.empty.runHistory [Op.add 1 7, .fire 1, .add 1 8, .fire 1, .del 1 7, .fire 1, .fire 2] = [[7], [7, 8], [8], []] := by decide
 -- the table is not empty, the automaton accepts five traces
-example : allRows.length = 1152 := by decide +kernel
+example : allRows.length = 1296 := by decide +kernel
 example : (lang 9 .start).length = 5 := by decide +kernel
 -- runs that do not escape exist for every kind of failure; one that escapes exists
 example : (run facts14 ⟨.soap11, .wsgi, .value⟩ ⟨.serialize, .exc, true⟩ none none).escaped = false := by decide
